@@ -35,6 +35,25 @@ CHECKS["C03"] = (
     "DESIGN.md 2/C03, 1.3, 1.5",
 )
 
+CHECKS["C04"] = (
+    "exhaustive enumeration of (document, formatter option set) pairs on the real code: format, parse, format again, compare bytes; cross-process digest under three hash seeds",
+    "For every document of a bounded set (containment paths, rich nested documents, shape-covering S1 documents, root lists, corpus files) and every option set (all 720 on the rich documents, 120 corner sets elsewhere; thorough: 720 everywhere) the real dumps/loads are run twice in a row: the second text must be byte-identical, the dictionaries equal, a fresh printer must give the same text, and two further processes started with other PYTHONHASHSEEDs must produce the identical digest over a fixed sub-space.",
+    "Trusted: the document set as representative of printable shapes; documents with quote characters inside strings excluded as documented.",
+    "DESIGN.md 2/C04",
+)
+CHECKS["C06"] = (
+    "exhaustive enumeration of the full formatter-option cross product (720 sets) x bounded document set on the real printer+parser",
+    "For every admissible combination of indent 0..8, spacer, quote, newlinechar, end_comment, align_values, separate_complex_types (720 sets, enumerated completely) and every document of the bounded set, loads(dumps(d, options)) must equal loads(dumps(d)) type-strictly; for separate_complex_types equality holds modulo the one permitted reorder (simple keys keep their relative order, block keys keep theirs, blocks may only move behind). mappyfile.dumps option plumbing is bound to PrettyPrinter for all 720 sets.",
+    "Trusted: my definition of block-valued keys (dict values, lists of dicts, PROJECTION/POINTS/PATTERN). Quick tier runs the 720 sets on rich + shape documents and 120 corner sets on the rest.",
+    "DESIGN.md 2/C06",
+)
+CHECKS["C16"] = (
+    "exhaustive enumeration of (document, option set) pairs; every output line judged by an independent line/indent/structure reader",
+    "For every document of the bounded set and every option set, the real printer's output is cut into lines by my own reader and each line is checked: only newlinechar breaks lines, indentation equals depth x indent x spacer for openers, keyword lines and END, END sits at its opener's indentation and carries '# TYPE' exactly when end_comment is on, and with align_values all simple-keyword values of one object start in the first multiple of max(1, indent) past the longest keyword.",
+    "Trusted: mcf/reader.py. Multi-line strings excepted; per-line rules skipped for newlinechar=' '.",
+    "DESIGN.md 2/C16",
+)
+
 NOT_YET = {}
 
 
